@@ -1,4 +1,4 @@
-from checks import mibcompile, oidindex, atomicwrite, searcher, readerlookup, history, oidtree, decls, refs, types, texts, v1v2
+from checks import mibcompile, oidindex, atomicwrite, searcher, readerlookup, history, oidtree, decls, refs, types, texts, v1v2, pysnmpload
 
 RULE_MC = ('scenario = terminal state of MibCompile.tla exported by TLC (request x lazily chosen answers of every '
            'component x options); non-trivial = at least one component answered with a failure / fresh / borrow; '
@@ -68,3 +68,6 @@ REGISTRY['C15'] = {'run': texts.run, 'replay': texts.replay, 'finish': {
 
 REGISTRY['C16'] = {'run': v1v2.run, 'replay': v1v2.replay, 'finish': {
     'rule': 'scenario = state of V1V2.tla (1-2 objects x SMIv1 type x ACCESS x STATUS, optional table with an index of three types, trap with 0-2 variables, RFC1155/RFC1065 home), rendered as SMIv1 and as SMIv2 text; plus one row per entry of the import rewrite domain; distinct by scenario', 'exhaustive': False}}
+
+REGISTRY['C04'] = {'run': pysnmpload.run, 'replay': pysnmpload.replay, 'finish': {
+    'rule': 'module sets rendered from the scenario models OidTree (all OID-carrying kinds, tables, cross-module parents), Decls, Types (chains across modules, named values, defaults) and Refs; each compiled with both backends and loaded into the real MibBuilder in a seeded order; distinct by module texts', 'exhaustive': False}}
